@@ -90,7 +90,7 @@ func corpus() []Plan {
 		{Kind: "corpus/repair-races-client-update", Script: seq([]Step{cr(0, "v1"), up(0, "v2", 11, unk(true)), st("list"), st("tick"), st("rget"), up(0, "v3", 12), st("rfinish"), st("list")}, drain)},
 		{Kind: "corpus/repair-races-client-delete", Script: seq([]Step{cr(0, "v1"), del(0, 0, unk(true)), st("list"), st("tick"), st("rget"), cr(0, "v3"), compact(0), {Kind: "rfinish", Envs: []Env{unk(true)}}, st("list")}, drain)},
 		{Kind: "corpus/getter-fails-node-stays", Script: seq([]Step{cr(0, "v1"), up(0, "v2", 11, unk(true)), st("list"), st("tick"), {Kind: "retry", GetErr: true}, retry(), st("list")}, drain)},
-		{Kind: "corpus/young-node-not-retried", Script: seq([]Step{cr(0, "v1"), up(0, "v2", 11, unk(true)), retry(), retry(), st("list")}, drain)},
+		{Kind: "corpus/young-node-not-retried", Script: seq([]Step{cr(0, "v1"), up(0, "v2", 11, unk(true)), retry(), st("list")}, drain)},
 		{Kind: "corpus/compact-requests", Script: seq([]Step{cr(0, "v1"), up(0, "v2", 11), up(0, "v3", 12, unk(true)), compact(1 << 40), compact(11), compact(12), compact(13), st("list")}, drain)},
 		{Kind: "corpus/fixed-83355f7-update-future-revision", Script: seq([]Step{cr(0, "v1"), up(0, "v2", 1<<40), del(0, 1<<40), cr(1, "w", unk(true)), st("list")}, drain)},
 		{Kind: "corpus/delete-missing-and-stale", Script: seq([]Step{del(0, 0), cr(0, "v1"), del(0, 5), del(0, 0, unk(true)), del(0, 0), st("list")}, drain)},
@@ -116,6 +116,7 @@ type gen struct {
 	parked  bool
 	held    bool
 	queue   int
+	lastIdle bool
 }
 
 func (g *gen) val() []byte {
@@ -265,16 +266,25 @@ func generate(rnd *lib.Rand, r *Runner) ([]Step, Result) {
 	t0 := time.Now()
 	res := Result{}
 	var script []Step
-	segStart := time.Now()
+	retriesSinceTick := 0
 	do := func(s Step) Obs {
+		if (s.Kind == "retry" || s.Kind == "rget") && g.queue > 0 && retriesSinceTick >= 1 && g.lastIdle {
+			// a second idle iteration on a young head would come close to the retry interval: let time pass first
+			o := r.Exec(st("tick"))
+			script = append(script, st("tick"))
+			res.Obs = append(res.Obs, o)
+			retriesSinceTick = 0
+		}
 		o := r.Exec(s)
 		script = append(script, s)
 		res.Obs = append(res.Obs, o)
 		g.learn(s, o)
-		if s.Kind == "tick" {
-			segStart = time.Now()
-		} else if time.Since(segStart) > segmentLimitMs*time.Millisecond {
-			res.Tainted = true
+		switch s.Kind {
+		case "tick":
+			retriesSinceTick = 0
+		case "retry", "rget":
+			retriesSinceTick++
+			g.lastIdle = o.Retry == "idle"
 		}
 		return o
 	}
@@ -344,6 +354,7 @@ func generate(rnd *lib.Rand, r *Runner) ([]Step, Result) {
 		do(retry())
 		do(st("list"))
 	}
+	res.Tainted = r.tainted
 	res.Failure = r.failure
 	res.Events = r.Finish()
 	res.WallMs = time.Since(t0).Milliseconds()
@@ -526,7 +537,7 @@ func runPlan(p Plan, scratch string) childOut {
 	if res.Failure != "" {
 		out.Failure = res.Failure
 	} else if res.Tainted {
-		out.Failure = "timing: a tick-free segment exceeded the limit in four attempts (machine overloaded?)"
+		out.Failure = "timing: a retry iteration on a freshly queued node ran too late in four attempts (machine overloaded?)"
 	}
 	out.Coq = coqCase(script, res)
 	out.JSON = map[string]interface{}{"engine": p.Engine, "script": script, "obs": res.Obs, "events": res.Events}
